@@ -52,6 +52,33 @@ def cases(ctx):
         p = proj(t)
         yield {"op": "supergates", "c": p, "super": False, "src": "TREE"}
         yield {"op": "supergates", "c": p, "super": True, "src": "TREE"}
+    # an output that is the root of its own block, lies inside the block of another output (which re-uses it reconvergently)
+    # and is read by further outputs: every reader has to come after the block that produces it
+    pool = ["a", "b", "c", "e", "f", "h", "k", "m", "p", "q", "s", "t", "u", "v", "w", "x", "y", "z", "n1", "n2", "n3", "n4"]
+    for j in range(30 if ctx.quick else 300):
+        r = ctx.rng("C17shared", j)
+        import circuitgraph as cg
+
+        nm = r.sample(pool, 12)
+        a, b, c0, o0, o1, o2 = nm[:6]
+        t = lambda: r.choice(["and", "or", "xor", "nand", "nor"])  # noqa: E731
+        c = cg.Circuit("shared")
+        for n in (a, b, c0):
+            c.add(n, "input")
+        c.add(o0, t(), fanin=[a, b], output=True)
+        c.add(o1, t(), fanin=[o0, c0], output=True)
+        c.add(o2, t(), fanin=[o1, a], output=True)
+        for k in range(r.randint(1, 4)):
+            c.add(nm[6 + k] + "_d", "input")
+            c.add(nm[6 + k], t(), fanin=[o1, nm[6 + k] + "_d"], output=True)
+        yield {"op": "supergates", "c": proj(c), "super": False, "src": "SHARED"}
+    # many small circuits with two or three outputs, some of them read by other logic (the order of the returned list matters)
+    for j in range(400 if ctx.quick else 8000):
+        r = ctx.rng("C17multi", j)
+        c = gen.rand_circuit(r, n_in=r.randint(3, 5), n_gates=r.randint(5, 10), max_fanin=2, extra_out=0.3, loaded_in_out=0.0, out_is_input=0.0)
+        p = proj(c)
+        if 2 <= sum(p["out"]) <= 4:
+            yield {"op": "supergates", "c": p, "super": False, "src": "MULTI"}
     if ctx.hashseed == 0:
         # blocks nested deeper than Python's recursion limit (a ladder of two-input gates); recorded only if the call raises
         yield {"op": "supergates", "c": ladder(1100), "super": False, "src": "DEEP", "sparse": True}
